@@ -664,8 +664,14 @@ impl World {
                     if !o0.same_content(o1) {
                         new_findings.push(Finding::new(&["C05"], "owner.changed_by_gossip", format!("slot{slot}: own state changed while processing a {} from slot{from}: ({},{}) {} keys -> ({},{}) {} keys", codec::msg_kind(msg), o0.gc, o0.mv, o0.kvs.len(), o1.gc, o1.mv, o1.kvs.len())));
                     }
+                    // the node's heartbeat moves through its own activity only: it never goes back, and it never jumps
+                    // to (or past) a value the message carried for the node itself
+                    let carried = codec::msg_digest(msg).iter().find(|e| self.by_id.get(&cid(&e.id)) == Some(&me)).map(|e| e.heartbeat);
+                    if o1.hb < o0.hb || (o1.hb != o0.hb + 1 && carried.map(|h| h > o0.hb && o1.hb >= h).unwrap_or(false)) {
+                        new_findings.push(Finding::new(&["C05"], "owner.heartbeat_from_gossip", format!("slot{slot}: own heartbeat {} -> {} while processing one message whose digest carried {carried:?} for the node itself", o0.hb, o1.hb)));
+                    }
                     if o1.hb != o0.hb + 1 {
-                        new_findings.push(Finding::new(&["C05"], "owner.heartbeat_step", format!("slot{slot}: own heartbeat {} -> {} while processing one message", o0.hb, o1.hb)));
+                        self.stats.inc("own_heartbeat_steps_other_than_one");
                     }
                 }
                 // C20 catch-up callback
